@@ -14,7 +14,7 @@ use crate::Args;
 use eyre::{bail, Result};
 use serde_json::{json, Value};
 use std::cell::Cell;
-use std::collections::{HashMap, HashSet};
+use std::collections::{BTreeMap, HashSet};
 use turdb::storage::{Freelist, Storage, TableFileHeader, TABLE_MAGIC, TRUNK_MAX_ENTRIES};
 
 const PAGE: usize = 16384;
@@ -63,12 +63,12 @@ fn zero_page() -> &'static [u8] {
 #[derive(Clone)]
 struct SparseStore {
     n: u32,
-    pages: HashMap<u32, APage>,
+    pages: BTreeMap<u32, APage>,
 }
 
 impl SparseStore {
     fn new(n: u32) -> Self {
-        SparseStore { n, pages: HashMap::new() }
+        SparseStore { n, pages: BTreeMap::new() }
     }
 }
 
@@ -149,14 +149,14 @@ impl<S: Storage> Storage for Tracked<S> {
 /// copied.
 struct Overlay<'a, S> {
     base: &'a S,
-    dirty: HashMap<u32, APage>,
+    dirty: Vec<(u32, APage)>,
     page0: Cell<u64>,
     oob: Cell<u64>,
 }
 
 impl<'a, S: Storage> Overlay<'a, S> {
     fn new(base: &'a S) -> Self {
-        Overlay { base, dirty: HashMap::new(), page0: Cell::new(0), oob: Cell::new(0) }
+        Overlay { base, dirty: Vec::new(), page0: Cell::new(0), oob: Cell::new(0) }
     }
     fn note(&self, p: u32) {
         if p == 0 {
@@ -171,18 +171,23 @@ impl<'a, S: Storage> Overlay<'a, S> {
 impl<'a, S: Storage> Storage for Overlay<'a, S> {
     fn page(&self, p: u32) -> Result<&[u8]> {
         self.note(p);
-        match self.dirty.get(&p) {
-            Some(b) => Ok(b.bytes()),
+        match self.dirty.iter().find(|(q, _)| *q == p) {
+            Some((_, b)) => Ok(b.bytes()),
             None => self.base.page(p),
         }
     }
     fn page_mut(&mut self, p: u32) -> Result<&mut [u8]> {
         self.note(p);
-        if !self.dirty.contains_key(&p) {
-            let copy = APage::copy_of(self.base.page(p)?);
-            self.dirty.insert(p, copy);
-        }
-        Ok(self.dirty.get_mut(&p).unwrap().bytes_mut())
+        // (a drain dirties one page per trunk in the chain: a handful)
+        let i = match self.dirty.iter().position(|(q, _)| *q == p) {
+            Some(i) => i,
+            None => {
+                let copy = APage::copy_of(self.base.page(p)?);
+                self.dirty.push((p, copy));
+                self.dirty.len() - 1
+            }
+        };
+        Ok(self.dirty[i].1.bytes_mut())
     }
     fn grow(&mut self, _c: u32) -> Result<()> {
         bail!("probe overlay cannot grow")
@@ -292,6 +297,7 @@ struct Stats {
     reopens: u64,
     probes: u64,
     fills: u64,
+    fill_pages: u64,
     chain_events: u64,
     hops: u64,
     max_chain: u32,
@@ -630,7 +636,7 @@ impl<S: Storage> Hist<S> {
                     self.state[p as usize] = FREE;
                 }
                 self.n_free += k as usize;
-                self.st.releases += k as u64;
+                self.st.fill_pages += k as u64;
                 self.st.max_free = self.st.max_free.max(self.n_free);
             }
             Op::Probe => {
@@ -662,26 +668,29 @@ impl<S: Storage> Hist<S> {
         let (p0, _oob) = {
             let mut ov = Overlay::new(&self.store.inner);
             let mut twin = Freelist::with_head(head, reported);
-            for _ in 0..=cap {
-                let r = catch(|| twin.allocate(&mut ov));
-                match r {
-                    Err(pm) => {
-                        let site = panic_site(&pm);
-                        pending = Some(("no_panic", format!("C34/no_panic/allocate@{}", site), json!({"panic": pm, "on_probe_copy": true})));
-                        break;
-                    }
-                    Ok(Err(e)) => {
-                        pending = Some(("no_error", "C34/no_error/allocate/".to_string(), json!({"error": e.to_string(), "on_probe_copy": true, "oob_accesses": ov.oob.get()})));
-                        break;
-                    }
-                    Ok(Ok(None)) => {
-                        terminated = true;
-                        break;
-                    }
-                    Ok(Ok(Some(p))) => {
-                        handed.push(p);
+            // one unwind guard around the whole drain (a guard per call is what makes Miri crawl)
+            let res = catch(|| {
+                for _ in 0..=cap {
+                    match twin.allocate(&mut ov) {
+                        Err(e) => return Some(e.to_string()),
+                        Ok(None) => {
+                            terminated = true;
+                            return None;
+                        }
+                        Ok(Some(p)) => handed.push(p),
                     }
                 }
+                None
+            });
+            match res {
+                Err(pm) => {
+                    let site = panic_site(&pm);
+                    pending = Some(("no_panic", format!("C34/no_panic/allocate@{}", site), json!({"panic": pm, "on_probe_copy": true})));
+                }
+                Ok(Some(e)) => {
+                    pending = Some(("no_error", "C34/no_error/allocate/".to_string(), json!({"error": e, "on_probe_copy": true, "oob_accesses": ov.oob.get()})));
+                }
+                Ok(None) => {}
             }
             (ov.page0.get(), ov.oob.get())
         };
@@ -937,6 +946,7 @@ impl<'a> Runner<'a> {
         self.agg.reopens += st.reopens;
         self.agg.probes += st.probes;
         self.agg.fills += st.fills;
+        self.agg.fill_pages += st.fill_pages;
         self.agg.chain_events += st.chain_events;
         self.agg.hops += st.hops;
         self.agg.max_chain = self.agg.max_chain.max(st.max_chain);
@@ -1120,6 +1130,9 @@ pub fn run(a: &Args) -> i32 {
     }
 
     let t1 = r.ctx.elapsed();
+    if miri {
+        eprintln!("C34 miri: exhaustive done at {:.0}s", t1);
+    }
     // 2. random mixes on small page sets, probe after every op
     let n_small = if miri { 6 } else if quick { 3000 } else { 25_000 };
     for i in 0..n_small {
@@ -1215,9 +1228,12 @@ pub fn run(a: &Args) -> i32 {
     }
 
     let t3 = r.ctx.elapsed();
+    if miri {
+        eprintln!("C34 miri: random done at {:.0}s", t3);
+    }
     // 4. multi-trunk histories reached with Fill (short op lists; the only multi-trunk route under Miri)
     if fill_ok {
-        let n_fill = if miri { 3 } else if quick { 300 } else { 3500 };
+        let n_fill = if miri { 2 } else if quick { 300 } else { 3500 };
         for _ in 0..n_fill {
             if r.ctx.elapsed() > caps[3] {
                 truncated.push("multi_trunk_fill");
@@ -1230,7 +1246,7 @@ pub fn run(a: &Args) -> i32 {
             // lay down `trunks` trunk pages: each real release of a trunk page + one real entry,
             // then Fill to d entries short of full, then real releases across the boundary
             let mut next = 1u32;
-            let mut budget = if miri { 150usize } else { rng.usize(50, 1500) };
+            let mut budget = if miri { 120usize } else { rng.usize(50, 1500) };
             for _t in 0..trunks {
                 if h.dead {
                     break;
@@ -1247,7 +1263,9 @@ pub fn run(a: &Args) -> i32 {
                     h.step(Op::Rel(next));
                     next += 1;
                 }
-                h.step(Op::Probe);
+                if !miri {
+                    h.step(Op::Probe);
+                }
             }
             // random tail around the boundaries
             while budget > 0 && !h.dead {
@@ -1268,6 +1286,9 @@ pub fn run(a: &Args) -> i32 {
                 }
             }
             h.step(Op::Probe);
+            if miri {
+                eprintln!("C34 miri: fill history generated at {:.0}s ({} ops, {} probes)", r.ctx.elapsed(), h.ops.len(), h.st.probes);
+            }
             r.finish_history(h, "multi_trunk_fill");
         }
     } else {
@@ -1292,6 +1313,7 @@ pub fn run(a: &Args) -> i32 {
     ctx.count("reopens", agg.reopens);
     ctx.count("probes", agg.probes);
     ctx.count("fill_ops", agg.fills);
+    ctx.count("releases_emulated_by_fill", agg.fill_pages);
     ctx.count("trunk_chained_on_release", agg.chain_events);
     ctx.count("trunk_hops_on_allocate", agg.hops);
     ctx.extra.insert("max_trunks_in_chain".into(), json!(agg.max_chain));
